@@ -285,6 +285,11 @@ impl StatusList2021CredentialSubject {
       return Err(StatusList2021CredentialError::MultipleCredentialSubject);
     };
     if let Some(subject_type) = subject.properties.get("type") {
+      // An array of one element is the same value in the other JSON shape.
+      let subject_type = match subject_type.as_array().map(Vec::as_slice) {
+        Some([single]) => single,
+        _ => subject_type,
+      };
       if subject_type.as_str() != Some(CREDENTIAL_SUBJECT_TYPE) {
         return Err(StatusList2021CredentialError::InvalidProperty("credentialSubject.type"));
       }
